@@ -331,6 +331,15 @@ def run_cases(ctx, module, fn, cases, nproc=None, chunk=None, env=None, deadline
 
 
 # ---------------------------------------------------------------------- trace validation batches
+def run_fresh(ctx, module, fn, cases, par=None, env=None, hashseed="0"):
+    """like run_cases, but EVERY case runs in an interpreter of its own: for cases whose point is the order in which a
+    fresh process touches things (first locale loaded, first settings seen)"""
+    import concurrent.futures as cf
+    ctx.snapshot()
+    with cf.ThreadPoolExecutor(max_workers=par or NCPU) as ex:
+        return list(ex.map(lambda c: run_cases(ctx, module, fn, [c], nproc=1, env=env, hashseed=hashseed)[0], cases))
+
+
 def run_cases_prebuilt(ctx, calls, select, size=5, key=None):
     """run call_parse cases; those chosen by `select(i)` are executed in batches whose DateDataParser objects are all
     constructed before any of them is used (harness.lib.call_parse_batch); results come back in case order"""
